@@ -5,15 +5,27 @@
 -/
 import CnvVerif.Generated.ExprsEdge
 import CnvVerif.Model.Fix
+import Mathlib.Tactic.Ring
+import Mathlib.Tactic.Linarith
+import Mathlib.Tactic.SplitIfs
+set_option linter.unusedTactic false
+set_option linter.unreachableTactic false
 namespace CnvVerif.Src
 open CnvVerif CnvVerif.Generated
 
 /-- `edge_losses`, one element -/
 theorem edgeLoss_is_source (t i : Rat) : edgeLoss t i = src_edge_losses t i := by
-  simp only [edgeLoss, src_edge_losses]
+  -- robust against algebraically equivalent rewrites of the source expression (flipped comparison, reordered factors)
+  unfold edgeLoss src_edge_losses
+  first
+  | rfl
+  | (simp only []; split_ifs <;> first | ring | (exfalso; linarith))
 
 /-- `edge_gains`, one element -/
 theorem edgeGain_is_source (t g i : Rat) : edgeGain t g i = src_edge_gains t g i := by
-  simp only [edgeGain, src_edge_gains]
+  unfold edgeGain src_edge_gains
+  first
+  | rfl
+  | (simp only []; split_ifs <;> first | ring | (exfalso; linarith))
 
 end CnvVerif.Src
